@@ -168,9 +168,7 @@ class P(core.Prop):
     def shrink_candidates(self, case):
         return c04_gen.shrink_candidates(case)
 
-    finding_preds = {
-        'high_path_valid_cookie': lambda c, o: c04_gen.high_path_valid_cookie(c),
-    }
+    finding_preds = {}     # C04-F1 (high_path_valid_cookie) was repaired in /repo by a1fd963
 
 
 PROP = P()
